@@ -680,6 +680,37 @@ func (j *transJudge) genLog1pArg(r *gen.RNG) ref.Bits {
 }
 
 func (j *transJudge) genArg(r *gen.RNG, fi int) ref.Bits {
+	if r.Chance(1, 10) {
+		// coefficient next to an internal threshold of the multi-word kernels (2^64, 2^128, 2^192 and the
+		// x10-guards, scaled by powers of ten), at a moderate magnitude so that the general path is taken
+		c := r.ThresholdFull()
+		if r.Chance(1, 3) {
+			c = r.ThresholdCoef()
+		}
+		nd := ref.NumDigits(c)
+		e := -(nd - 1) + r.Pick(0, 0, 0, 1, -1, 2, 3, r.Range(-12, 4))
+		neg := r.Bool()
+		switch transFns[fi].kind {
+		case 2: // logarithms: positive arguments over a wider magnitude range
+			neg = false
+			if r.Chance(1, 3) {
+				e = -(nd - 1) + r.Range(-300, 300)
+			}
+		case 3: // Log1p: x = t - 1 so that 1+x carries the threshold mantissa (when that is representable)
+			if r.Bool() {
+				t := new(big.Int).Set(c)
+				one := ref.Pow10(nd - 1)
+				if t.Cmp(one) > 0 {
+					return decOf(false, t.Sub(t, one), -(nd - 1))
+				}
+			}
+			if neg && e >= -(nd-1) {
+				e = -nd - r.Intn(3) // keep -1 < x
+			}
+		}
+		j.sh.Cell("gen/threshold-coefficient")
+		return decOf(neg, c, gen.ClampExp(e))
+	}
 	switch transFns[fi].kind {
 	case 0:
 		return j.genExpArg(r, fi)
